@@ -39,7 +39,7 @@ M = [
      "            # re-set cutoff to initial value\n            self._set_cutoff(cutoff)\n",
      "            # re-set cutoff to initial value\n            pass\n"),
     ("c10_refit_on_new_data_only", "C10", "sktime/forecasting/base/_sktime.py",
-     "            self.fit(self._y, self._X, fh)\n", "            self.fit(y, X, fh)\n"),
+     "            self.fit(self._y, self._X, self._fh)\n", "            self.fit(y, X, self._fh)\n"),
     ("c10_ensemble_update_skips_last_member", "C10", "sktime/forecasting/compose/_ensemble.py",
      "        for forecaster in self.forecasters_:\n            forecaster.update(y, X, update_params=update_params)\n",
      "        for forecaster in self.forecasters_[:-1] or self.forecasters_:\n            forecaster.update(y, X, update_params=update_params)\n"),
@@ -47,7 +47,7 @@ M = [
      "                    y_pred = last_window[-1] + (fh_idx + 1) * slope\n",
      "                    y_pred = last_window[-1] + (np.arange(len(fh_idx)) + 1) * slope\n"),
     ("c03_trend_uses_positional_origin", "C03", "sktime/forecasting/trend.py",
-     "        fh = self.fh.to_absolute_int(self._y.index[0], self.cutoff)\n",
+     "        fh = self.fh.to_absolute_int(self._y_start, self.cutoff)\n",
      "        fh = self.fh.to_absolute_int(0, self.cutoff)\n"),
     ("c03_stack_index_from_fit_cutoff", "C03", "sktime/forecasting/compose/_stack.py",
      "        index = self.fh.to_absolute(self.cutoff)\n        return pd.Series(y_pred, index=index)\n",
@@ -72,8 +72,8 @@ M = [
      "        self.best_index_ = results.loc[:, f\"rank_{scoring_name}\"].argmin()\n",
      "        self.best_index_ = results.loc[:, f\"rank_{scoring_name}\"].argmax()\n"),
     ("c08_refit_with_default_params", "C08", "sktime/forecasting/model_selection/_tune.py",
-     "        self.best_forecaster_ = clone(self.forecaster).set_params(**self.best_params_)\n",
-     "        self.best_forecaster_ = clone(self.forecaster).set_params(**(self.best_params_ if self.best_index_ else {}))\n"),
+     "            **{name: clone(value, safe=False) for name, value in self.best_params_.items()}\n",
+     "            **{name: clone(value, safe=False) for name, value in (self.best_params_ if self.best_index_ else {}).items()}\n"),
     ("c12_boxcox_inplace", "C12", "sktime/transformations/series/boxcox.py",
      "        zt = boxcox(z.to_numpy(), self.lambda_)\n        return pd.Series(zt, index=z.index)\n",
      "        z[:] = boxcox(z.to_numpy(), self.lambda_)\n        return z\n"),
